@@ -80,3 +80,37 @@ Definition same_interface (a b : observed) : Prop :=
 (* the cache rule: Some id = hand out the known object id *)
 Definition reuse (replace : bool) (known : list (str * nat)) (name : str) : option nat :=
   if replace then None else alist_get str_eqb name known.
+
+(* --- histories: the interface as currently declared ------------------------------
+
+   An exporter may keep changing an interface object after it has been made:
+   declare a further member (or declare an existing member name again, with
+   another definition), delete a member, and ask for the XML at any moment in
+   between.  [in_force h] is the definition in force after the history h: the
+   declarations made so far, in order, without those whose member has been
+   deleted since.  Deleting a member that is not there changes nothing (the
+   call fails).  Asking for the XML changes nothing. *)
+Inductive mkind := IsMethod | IsSignal | IsProperty.
+
+Inductive hop :=
+| HAdd (d : tdecl)               (* declare a member *)
+| HDel (k : mkind) (n : str)     (* delete the method / signal / property called n *)
+| HGetXml.                       (* ask for the interface's XML *)
+
+(* d declares the k called n *)
+Definition declares (k : mkind) (n : str) (d : tdecl) : bool :=
+  match k, d with
+  | IsMethod, TMethod m _ _ => str_eqb m n
+  | IsSignal, TSignal m _ => str_eqb m n
+  | IsProperty, TProperty m _ _ _ => str_eqb m n
+  | _, _ => false
+  end.
+
+Definition in_force_step (ds : list tdecl) (o : hop) : list tdecl :=
+  match o with
+  | HAdd d => ds ++ [d]
+  | HDel k n => filter (fun d => negb (declares k n d)) ds
+  | HGetXml => ds
+  end.
+
+Definition in_force (h : list hop) : list tdecl := fold_left in_force_step h [].
